@@ -33,7 +33,7 @@ def project(rows, types):
 
 
 PROBES_BY = {
-    "C13": ["ops", "reads", "chunked_reads", "multi_chunk_reads", "appends", "finalized", "buffer_flushes"],
+    "C13": ["ops", "reads", "chunked_reads", "multi_chunk_reads", "appends", "finalized", "buffer_flushes", "caller_reused_its_object"],
     "C14": ["ops", "merges", "tie_merges", "sortedness_faults"],
 }
 
@@ -76,11 +76,12 @@ def make_machine(which, base_dir):
                 self._do("open_writer", table=table, fmt=fmt, columns=cols, types=types, buffer_size=buffer_size, kind=kind)
 
             @precondition(lambda self: any(t["writer"] is not None for t in self.world.tables.values()))
-            @rule(data=st.data(), rows=st.lists(st.lists(cell, min_size=4, max_size=4), min_size=1, max_size=7))
-            def append(self, data, rows):
+            @rule(data=st.data(), rows=st.lists(st.lists(cell, min_size=4, max_size=4), min_size=1, max_size=7),
+                  reuse=st.sampled_from([False, False, True]))
+            def append(self, data, rows, reuse):
                 open_ = sorted(k for k, t in self.world.tables.items() if t["writer"] is not None)
                 table = data.draw(st.sampled_from(open_))
-                self._do("append", table=table, rows=project(rows, self.world.tables[table]["types"]))
+                self._do("append", table=table, rows=project(rows, self.world.tables[table]["types"]), reuse=reuse)
 
             @precondition(lambda self: any(t["writer"] is not None for t in self.world.tables.values()))
             @rule(data=st.data())
@@ -131,8 +132,8 @@ def make_machine(which, base_dir):
                                                     st.integers(-4, 4).map(float)), st.integers(0, 6)),
                                 min_size=1, max_size=40),
                   extra_types=st.lists(st.sampled_from(TYPES), min_size=0, max_size=2),
-                  row_group=st.sampled_from([None, None, 1, 2, 3, 5]))
-            def make_runs(self, group, fmt, descending, n_runs, tie_pool, rows, extra_types, row_group):
+                  row_group=st.sampled_from([None, None, 1, 2, 3, 5]), int_text=st.sampled_from([False, False, True]))
+            def make_runs(self, group, fmt, descending, n_runs, tie_pool, rows, extra_types, row_group, int_text):
                 runs = [[] for _ in range(n_runs)]
                 for rid, (sc, where) in enumerate(rows):
                     if tie_pool:
@@ -140,8 +141,16 @@ def make_machine(which, base_dir):
                         sc = float(int(sc) % tie_pool - tie_pool // 2)
                     runs[(where + rid) % n_runs if where < 5 else 0].append([sc, rid])
                 runs = [r for r in runs if r]
+                if int_text and fmt == "csv" and not tie_pool:
+                    # every run starts with two whole numbers (so a text reader sniffs an integer column) and goes on
+                    # with fractional scores
+                    big = 10 + int(max(abs(sc) for sc, _ in rows))
+                    for k, run in enumerate(runs):
+                        for j in range(2):
+                            v = float(big + 2 * k + j) if descending else float(-big - 2 * k - j)
+                            run.append([v, 1000 + 2 * k + j])
                 self._do("make_runs", group=group, fmt=fmt, runs=runs, descending=descending, extra_types=extra_types,
-                         row_group=row_group if fmt == "parquet" else None)
+                         row_group=row_group if fmt == "parquet" else None, int_text=bool(int_text and fmt == "csv"))
 
             def _groups(self):
                 return sorted({k.rsplit("_", 1)[0] for k, t in self.world.tables.items() if t["kind"] == "run"})
